@@ -8,6 +8,7 @@ CONSTANTS
   Backup = "all"
   Scenes <- Pair
   DispWrite = "every"
+  MatTable = "own"
 INVARIANT TypeOK
 INVARIANT OutsideUnchanged
 INVARIANT HistoryIndependent
